@@ -21,7 +21,8 @@
 (*           last; a scope is a pair of sequences names / values),          *)
 (*           stack |-> the environments of the suspended callers (outermost *)
 (*           first), out |-> printed byte strings,                          *)
-(*           fuel |-> remaining loop iterations and calls]                  *)
+(*           fuel |-> remaining loop iterations and calls,                  *)
+(*           glob |-> the scope of the program's global constants]          *)
 (* Result:  [v, st, sig, lab] with sig in                                   *)
 (*          norm | brk | cont | ret | fault | nofuel                        *)
 (*                                                                         *)
@@ -132,7 +133,9 @@ Eval(P, e, st) ==
       [] e.e = "type" -> Norm([t |-> "type", w |-> e.ty.w, s |-> e.ty.s], st)
       [] e.e = "bool" -> Norm(BoolV(e.v), st)
       [] e.e = "none" -> Norm(Void, st)
-      [] e.e = "var" -> Norm(Lookup(st.env, e.n), st)
+      \* a name that no scope of the function binds is a global constant
+      [] e.e = "var" -> Norm(IF ScopeOf(st.env, e.n, Len(st.env)) = 0 THEN Get(st.glob, e.n)
+                             ELSE Lookup(st.env, e.n), st)
       [] e.e = "un" -> LET r == Eval(P, e.x, st) IN IF r.sig # "norm" THEN r ELSE Norm(Un(e.op, r.v), r.st)
       [] e.e = "cast" -> LET r == Eval(P, e.x, st) IN IF r.sig # "norm" THEN r ELSE Norm(Cast(TyOf(e, r.st), r.v), r.st)
       [] e.e = "bin" ->
@@ -335,8 +338,17 @@ Exec(P, s, st) ==
 (* observable behaviour of a whole program: what it prints and its exit status.  `main` returns
    an i32 (status = its low byte) or nothing (status 0); a fault prints a message after the
    output so far and exits with status 1. *)
+(* global constants are evaluated in the order given (each may use the earlier ones); their
+   initialisers are literals and comptime blocks without effects *)
+RECURSIVE Globals(_, _, _)
+Globals(P, k, st) ==
+    IF k > Len(P.globs) THEN st
+    ELSE LET r == Eval(P, P.globs[k].x, st) IN
+         Globals(P, k + 1, [st EXCEPT !.glob = Bind(st.glob, P.globs[k].n, r.v)])
 Run(P, fuel) ==
-    LET r == Call(P, "main", <<>>, [env |-> <<>>, stack |-> <<>>, out |-> <<>>, fuel |-> fuel]) IN
+    LET st0 == [env |-> <<>>, stack |-> <<>>, out |-> <<>>, fuel |-> fuel, glob |-> EmptyScope]
+        st1 == IF "globs" \in DOMAIN P THEN Globals(P, 1, st0) ELSE st0
+        r == Call(P, "main", <<>>, st1) IN
     [out |-> r.st.out,
      end |-> IF r.sig = "fault" THEN (IF r.v.why = "unwrap" THEN "unwrap" ELSE r.v.why) ELSE IF r.sig = "nofuel" THEN "nofuel" ELSE "exit",
      status |-> IF r.sig = "fault" THEN 1 ELSE IF r.sig = "nofuel" THEN -1
